@@ -219,6 +219,12 @@ func vh_C03_flow_two() {
 	if l1.cookie.Name == l2.cookie.Name && f.p.CookieOptions.CSRFPerRequest {
 		verifIdealOnly() // two fresh states whose hashes share the 8-character prefix
 	}
+	if l1.cookie.Name != l2.cookie.Name && strings.EqualFold(l1.cookie.Name, l2.cookie.Name) {
+		// ... or prefixes that differ in letter case only: cookie names are case sensitive, these
+		// are two different cookies
+		verifIdealOnly()
+		verifReach("names-differing-in-case-only")
+	}
 	which := ndChoice("complete-login", 2)
 	l, o := l1, l2
 	if which == 1 {
@@ -246,8 +252,8 @@ func vh_C03_flow_two() {
 		verifAssert("C03.two.only-own-cookie", has)
 		verifAssert("C05.two.nonce-of-this-login", encryption.HashNonce(f.store.saved.Nonce) == l.nonceHash)
 	}
-	permissive := f.prov.redeemErr == nil && f.prov.enrichErr == nil && f.prov.validateOK && f.emailOK && f.prov.authorized
-	if f.p.CookieOptions.CSRFPerRequest && has && permissive {
+	// (this flow's provider, validator and store never fail: vNewFlow("", true))
+	if f.p.CookieOptions.CSRFPerRequest && has {
 		// per-request cookies: every outstanding login completes, whatever else is in the jar
 		// (assuming the 8-character name prefixes of the two logins differ: a 2^-48 event)
 		if l1.cookie.Name != l2.cookie.Name {
